@@ -180,6 +180,10 @@ func knownUnits() []knownUnit {
 				mkFile("b.thrift", "p", none, strct("T", fd(1, "x", i32))))},
 		{ID: "X12", Expect: "fail", Note: "argument named nil shadows the predeclared nil the generated client body compares with and returns",
 			Subject: sub("go", nil, mkFile("a.thrift", "pa", none, svc("S", nil, fnVoid("f", []*idlgen.Field{fd(1, "nil", i32)}, nil))))},
+		{ID: "X13", Expect: "fail", Note: "a derived service defines a function of its base service again with another signature: the interface embeds the base and declares the method a second time",
+			Subject: sub("go", nil,
+				mkFile("a.thrift", "pa", []int{1}, svc("V0", &idlgen.NamedRef{File: 1, Name: "V1"}, fnVoid("m0", nil, nil))),
+				mkFile("b.thrift", "pb", none, svc("V1", nil, fnVoid("m0", []*idlgen.Field{fd(1, "a0", i32)}, nil))))},
 		{ID: "D19", Expect: "fail", Note: "functions a_b and aB of one service: duplicate method AB in the interface",
 			Subject: sub("go", nil, mkFile("a.thrift", "pa", none, svc("A", nil, fnVoid("a_b", nil, nil), fnVoid("aB", nil, nil))))},
 		{ID: "D20", Expect: "fail", Note: "fastgo -r: two files of one go namespace both declare ThriftGoUnusedProtection",
